@@ -146,6 +146,7 @@ package snap
 //@   maypanic
 //@   loop level as it1
 //@     invariant forall(i, 0, len(levels), hasKey(tmIDsByLevels, levels[i]))
+//@     invariant[C06] forall(i, 0, len(levels), levels[i] <= ix.deepestLevel)
 //@   loop level#2 as it2 isolated
 //@     invariant !isNil(newPolygonsPerTileMatrixID) && keysIn(newPolygonsPerLevel, levels)
 //@     invariant forall(i, 0, len(levels), hasKey(tmIDsByLevels, levels[i]))
